@@ -144,6 +144,9 @@ def one_op(p, inner=False):
         parts = [(6, mv), (p.get("misc_w", 5), misc)]
         if p["arcs"]:
             parts += [(p["arcs"], op_arc())]
+        if p["arcs"] and p["rel"] and p.get("relarc", 2):
+            # an arc under G91 (optionally followed by a relative move), then back to G90
+            parts += [(p.get("relarc", 2), st.tuples(st.just("relarc"), op_arc(), st.one_of(st.none(), op_move())))]
         if p.get("offon") and not inner:
             # exclusion switched off, a few ops, switched on again, then a single-axis move
             parts += [(p["offon"], st.tuples(st.just("offon"), st.lists(one_op(p, True), min_size=1, max_size=4),
@@ -350,6 +353,18 @@ class Renderer(object):  # pylint: disable=too-many-instance-attributes
             if not words:
                 return
             self.g(g + words, precheck=True)
+        elif k == "relarc":
+            if self.exact:
+                self.rewrites += 1
+                return
+            was_abs = self.pr.abs
+            if was_abs:
+                self.g("G91")
+            self.arc(o[1])
+            if o[2] is not None:
+                self.op(o[2])
+            if was_abs:
+                self.g("G90")
         elif k == "offon":
             _, inner, i, mask, word = o
             self.op(("at", word, "ExcludeRegion", False))
